@@ -1,7 +1,8 @@
 import Evenio.Model.HandlerList
-/-! Hand-written prelude of the Rust → Lean function translator `tools/rs2lean`: the `Vec` operations the generated
-    definitions refer to.  `Vec<T>` is `List T`; indices and lengths are `Nat`.  All operations are total here; where the
-    Rust operation panics (index out of range) the generated file says so in its header.
+/-! Hand-written prelude of the Rust → Lean function translator `tools/rs2lean`: the `Vec` / `Option` operations the
+    generated definitions refer to, and the result type of a function that can `panic!`.  `Vec<T>` is `List T`; indices and
+    lengths are `Nat`.  All operations are total here; where the Rust operation panics or is undefined (index out of range,
+    `unwrap` of `None`) the generated file says so in its header.
     They are `abbrev`s, so `simp`/`rfl` see through them. -/
 namespace Evenio.Rs2Lean
 variable {α : Type}
@@ -20,5 +21,30 @@ abbrev vecPosition [BEq α] (l : List α) (x : α) : Option Nat := l.idxOf? x
 
 /-- `Vec::len()` -/
 abbrev vecLen (l : List α) : Nat := l.length
+
+/-- `Vec::get(i)` / `get_mut(i)` (and the checked reading of `get_unchecked(i)`) -/
+abbrev vecGet (l : List α) (i : Nat) : Option α := l[i]?
+
+/-- `v[i] = x` through a mutable borrow of the element (nothing happens out of range) -/
+abbrev vecSet (l : List α) (i : Nat) (x : α) : List α := l.set i x
+
+/-- `Vec::resize(n, x)` -/
+abbrev vecResize (l : List α) (n : Nat) (x : α) : List α := l.take n ++ List.replicate (n - l.length) x
+
+/-- `Vec::swap_remove(i)` (the removed element is dropped): the last element takes the place of the `i`-th.
+    Out of range (a panic in Rust) the list is unchanged. -/
+abbrev vecSwapRemove (l : List α) (i : Nat) : List α :=
+  match l.getLast? with
+  | none => l
+  | some last => if i < l.length then (l.set i last).dropLast else l
+
+/-- `Option::unwrap()` / `unwrap_unchecked()`: `default` for `None` (a panic / undefined behaviour in Rust) -/
+abbrev optUnwrap [Inhabited α] (o : Option α) : α := o.getD default
+
+/-- the result of a function that contains `panic!` -/
+inductive Outcome (α : Type) where
+  | ok (a : α)
+  | panic (msg : String)
+deriving Repr
 
 end Evenio.Rs2Lean
